@@ -68,7 +68,7 @@ pub fn run(args: &Args) {
     let mut inputs: Vec<(String, String)> = vec![]; // (class, text)
 
     // random bytes
-    let n_bytes = if args.thorough() { 6000 } else { 600 };
+    let n_bytes = if args.thorough() { 3000 } else { 600 };
     for _ in 0..n_bytes {
         let len = rng.below(60) as usize;
         let bytes: Vec<u8> = (0..len)
@@ -81,7 +81,7 @@ pub fn run(args: &Args) {
         inputs.push(("bytes".into(), String::from_utf8_lossy(&bytes).to_string()));
     }
     // token soups
-    let n_soup = if args.thorough() { 20000 } else { 2500 };
+    let n_soup = if args.thorough() { 10000 } else { 2500 };
     for _ in 0..n_soup {
         let len = 1 + rng.below(14) as usize;
         let mut s = String::new();
@@ -127,7 +127,7 @@ pub fn run(args: &Args) {
     }
     // mutations of valid programs
     let mut bases: Vec<String> = vec![];
-    for k in 0..(if args.thorough() { 60 } else { 12 }) {
+    for k in 0..(if args.thorough() { 30 } else { 12 }) {
         let mut g = PGen::new(&mut rng);
         g.with_errors = k % 2 == 0;
         bases.push(g.program(1 + (k % 3) as u32));
@@ -140,13 +140,13 @@ pub fn run(args: &Args) {
     for (bi, b) in bases.iter().enumerate() {
         let chars: Vec<char> = b.chars().collect();
         // truncate at every prefix (first base fully, the others sampled)
-        let step = if bi == 0 || args.thorough() { 1 } else { 7 };
+        let step = if bi == 0 { 1 } else if args.thorough() { 3 } else { 7 };
         let mut i = 0;
         while i < chars.len() {
             inputs.push(("prefix".into(), chars[..i].iter().collect()));
             i += step;
         }
-        let n_mut = if args.thorough() { 150 } else { 40 };
+        let n_mut = if args.thorough() { 80 } else { 40 };
         for _ in 0..n_mut {
             let mut c = chars.clone();
             if c.is_empty() {
